@@ -67,6 +67,7 @@ type Exec struct {
 	last     *AppState
 	step     int
 	poolGifts *big.Int
+	awardedNow map[string]bool // holders that receive an award in the BeginBlock being checked
 	minChanged bool
 	windowChangedLate bool
 	stopped  bool
@@ -612,6 +613,18 @@ func (e *Exec) runBlock(bi int) {
 	preBB := e.last
 	if e.m.Desync == "" {
 		exp = e.m.BeginBlock(h, t, propAcct, mvotes, mevs)
+		e.awardedNow = map[string]bool{}
+		if exp != nil {
+			for a := range exp.AwardsMinted {
+				e.awardedNow[acctKey(a)] = true
+			}
+		}
+		if exp != nil && exp.ExpectHalt == "" {
+			if a, ok := exp.AwardsMinted[AcctPool]; ok {
+				// an award to the staked pool's own address stays there without being anybody's stake
+				e.poolGifts.Add(e.poolGifts, a)
+			}
+		}
 	}
 	canon := ""
 	for _, r := range e.liveReplicas() {
